@@ -36,4 +36,38 @@ theorem monthDay_len (doy : Int) (h0 : 0 ≤ doy) (h1 : doy ≤ 365) :
   obtain ⟨a, b⟩ := hmp
   interval_cases mp <;> simp <;> omega
 
+theorem yearStart_succ (y : Int) :
+    yearStart (y + 1) = yearStart y + 365 + (if (y + 1) % 4 = 0 ∧ (y + 1) % 100 ≠ 0 then 1 else 0) := by
+  unfold yearStart
+  split_ifs <;> omega
+
+theorem yearStart_mono (a b : Int) (h : a ≤ b) : yearStart a ≤ yearStart b := by
+  unfold yearStart; omega
+
+/-- the year-of-era formula is the unique year whose span contains the day -/
+theorem yoe_unique (doe yoe : Int) (hy0 : 0 ≤ yoe) (hy1 : yoe < 400) (h0 : yearStart yoe ≤ doe)
+    (h1 : doe - yearStart yoe ≤ 364 ∨ ((yoe + 1) % 4 = 0 ∧ ((yoe + 1) % 100 ≠ 0 ∨ yoe + 1 = 400) ∧ doe - yearStart yoe = 365)) :
+    yoeOfDoe doe = yoe := by
+  have hd0 : 0 ≤ doe := by unfold yearStart at h0; omega
+  have hd1 : doe < 146097 := by unfold yearStart at h1; omega
+  obtain ⟨a0, a1, a2, a3⟩ := yoe_bounds doe hd0 hd1
+  generalize yoeOfDoe doe = Y at *
+  by_contra hne
+  rcases Int.lt_or_gt_of_ne hne with hlt | hgt
+  · -- Y < yoe
+    have hm := yearStart_mono (Y + 1) yoe (by omega)
+    have hs := yearStart_succ Y
+    split_ifs at hs <;> omega
+  · have hm := yearStart_mono (yoe + 1) Y (by omega)
+    have hs := yearStart_succ yoe
+    split_ifs at hs <;> omega
+
+
+theorem monthDay_of_doy (m d : Int) (hm0 : 1 ≤ m) (hm1 : m ≤ 12) (hd0 : 1 ≤ d)
+    (hd1 : d ≤ (if m = 2 then 29 else if m = 4 ∨ m = 6 ∨ m = 9 ∨ m = 11 then 30 else 31)) :
+    monthDayOfDoy (doyOfMonthDay m d) = (m, d) ∧ 0 ≤ doyOfMonthDay m d ∧ doyOfMonthDay m d ≤ 365 ∧
+      (doyOfMonthDay m d = 365 ↔ (m = 2 ∧ d = 29)) ∧ (m ≤ 2 ↔ 306 ≤ doyOfMonthDay m d) := by
+  interval_cases m <;> simp [monthDayOfDoy, doyOfMonthDay] at * <;> omega
+
+
 end Cal
